@@ -14,26 +14,33 @@
 (***************************************************************************)
 EXTENDS Registry_Hist, IOUtils
 Trace == ndJsonDeserialize(IOEnv.TRACE)
-VARIABLES l, failed, stat, states, starts, ends
-\* states[j+1] = abstract live map after j operations; starts/ends: sequence numbers of the operations
-tvars == <<l, failed, stat, states, starts, ends, live, conns, localDone, hist>>
-Stat0 == [ops |-> 0, reqs |-> 0, overlapping |-> 0, served |-> 0, refused |-> 0]
-TInit == HInit /\ l = 1 /\ failed = {} /\ stat = Stat0 /\ states = <<[m \in HMethods |-> {}]>> /\ starts = <<>> /\ ends = <<>>
+\* Several writer goroutines may run; each owns its own backends (w1: local and c1, w2: c2), so the
+\* effects of different writers commute and the state at any instant is the union of what each writer
+\* has published so far.  Per writer: states[w][j+1] = its live map after j of its operations.
+WriterIds == {"w1", "w2"}
+VARIABLES l, failed, stat, states, starts, ends, wlive
+tvars == <<l, failed, stat, states, starts, ends, wlive, live, conns, localDone, hist>>
+Stat0 == [ops |-> 0, reqs |-> 0, overlapping |-> 0, served |-> 0, refused |-> 0, twoWriters |-> 0]
+NoLive == [m \in HMethods |-> {}]
+TInit == /\ HInit /\ l = 1 /\ failed = {} /\ stat = Stat0
+         /\ states = [w \in WriterIds |-> <<NoLive>>] /\ starts = [w \in WriterIds |-> <<>>] /\ ends = [w \in WriterIds |-> <<>>]
+         /\ wlive = [w \in WriterIds |-> NoLive]
 IsEv(e) == l <= Len(Trace) /\ Trace[l].ev = e
 
 TRegOp ==
   /\ IsEv("RegOp")
   /\ LET e == Trace[l]
+         w == e.w
          op == Op(e.op, e.b)
          \* an operation that reported failure must not have changed anything
-         eff == IF e.ok \/ op.op \in {"dropunknown", "regfail"} THEN Effect(op, live, conns, localDone)
-                ELSE [live |-> live, conns |-> conns, localDone |-> localDone]
-     IN /\ live' = eff.live /\ conns' = eff.conns /\ localDone' = eff.localDone /\ hist' = <<>>
-        /\ states' = Append(states, eff.live)
-        /\ starts' = Append(starts, e.s) /\ ends' = Append(ends, e.e)
+         nl == IF e.ok \/ op.op \in {"dropunknown", "regfail"} THEN Effect(op, wlive[w], {}, FALSE).live ELSE wlive[w]
+     IN /\ wlive' = [wlive EXCEPT ![w] = nl]
+        /\ states' = [states EXCEPT ![w] = Append(@, nl)]
+        /\ starts' = [starts EXCEPT ![w] = Append(@, e.s)] /\ ends' = [ends EXCEPT ![w] = Append(@, e.e)]
         /\ failed' = failed \cup (IF e.crash # "" THEN {<<0, l, "SafeOps">>} ELSE {})
+                              \cup (IF ~e.ok /\ op.op \in {"reglocal", "regconn", "reregister", "dropconn"} THEN {<<0, l, "OpResult">>} ELSE {})
         /\ stat' = [stat EXCEPT !.ops = @ + 1]
-  /\ l' = l + 1
+  /\ l' = l + 1 /\ UNCHANGED <<live, conns, localDone, hist>>
 
 \* number of elements of the increasing sequence s that are < x (binary search)
 RECURSIVE CountBelowIn(_, _, _, _)
@@ -42,13 +49,14 @@ CountBelowIn(s, x, lo, hi) ==
   ELSE LET mid == (lo + hi) \div 2 IN
        IF s[mid] < x THEN CountBelowIn(s, x, mid + 1, hi) ELSE CountBelowIn(s, x, lo, mid - 1)
 CountBelow(s, x) == CountBelowIn(s, x, 1, Len(s))
+Join2(a, b) == [m \in HMethods |-> a[m] \cup b[m]]
 
 TReq ==
   /\ IsEv("Req")
   /\ LET e == Trace[l]
-         lo == CountBelow(ends, e.s)       \* operations certainly published
-         hi == CountBelow(starts, e.e)     \* operations possibly published
-         cand == {states[j + 1] : j \in lo..hi}
+         lo(w) == CountBelow(ends[w], e.s)       \* operations of w certainly published
+         hi(w) == CountBelow(starts[w], e.e)     \* operations of w possibly published
+         cand == {Join2(states["w1"][j1 + 1], states["w2"][j2 + 1]) : j1 \in lo("w1")..hi("w1"), j2 \in lo("w2")..hi("w2")}
          okIn(lv) == IF e.k = "served" THEN e.by \in lv[e.m]
                      ELSE IF e.k \in {"unimplemented", "notfound"} THEN lv[e.m] = {}
                      ELSE FALSE
@@ -56,10 +64,11 @@ TReq ==
                  (IF ~\E lv \in cand : okIn(lv) THEN
                     {IF (\A lv \in cand : lv[e.m] # {}) /\ e.k # "served" THEN "KeepServing" ELSE "AtomicInterval"} ELSE {}))
      IN /\ failed' = failed \cup {<<e.id, l, f>> : f \in bad}
-        /\ stat' = [stat EXCEPT !.reqs = @ + 1, !.overlapping = @ + (IF hi > lo THEN 1 ELSE 0),
+        /\ stat' = [stat EXCEPT !.reqs = @ + 1, !.overlapping = @ + (IF hi("w1") > lo("w1") \/ hi("w2") > lo("w2") THEN 1 ELSE 0),
+                                !.twoWriters = @ + (IF hi("w1") > lo("w1") /\ hi("w2") > lo("w2") THEN 1 ELSE 0),
                                 !.served = @ + (IF e.k = "served" THEN 1 ELSE 0),
                                 !.refused = @ + (IF e.k \in {"unimplemented", "notfound"} THEN 1 ELSE 0)]
-  /\ l' = l + 1 /\ UNCHANGED <<states, starts, ends, live, conns, localDone, hist>>
+  /\ l' = l + 1 /\ UNCHANGED <<states, starts, ends, wlive, live, conns, localDone, hist>>
 
 TSpec == TInit /\ [][TRegOp \/ TReq]_tvars
 Report == l > Len(Trace) =>
